@@ -6,7 +6,7 @@ from .. import core, gen, compare, admit, interlib, exact as E
 from ..gen import Gen, tok
 from ..exact import add, sub, mul, neg, dot, cross
 
-TEMPLATES = ['random', 'translate', 'nested', 'shared-vertex', 'face-pyramid', 'coplanar', 'in-face-plane', 'self', 'cut', 'lattice-box']
+TEMPLATES = ['random', 'translate', 'nested', 'shared-vertex', 'face-pyramid', 'coplanar', 'in-face-plane', 'self', 'cut', 'lattice-box', 'nested-touching']
 
 
 def body_desc(G):
@@ -108,6 +108,23 @@ def make_case(G, i):
             B0 = ('G', [add(c, mul(k, sub(p, c))) for p in A0[1]])
         else:
             B0 = ('B', [[add(c, mul(k, sub(p, c))) for p in f] for f in A0[1]])
+    elif tpl == 'nested-touching':
+        # a body INSIDE the first one that touches its boundary only in one or two points (a vertex, a point of an edge, a point of a
+        # face): every face of the outer body misses the inner one or meets it in a Point / Segment only
+        if A0[0] != 'B':
+            A0 = ('B', body_desc(G))
+        vs = E.vertices_of(A0)
+        for _ in range(20):
+            inner = [tuple(F(round(x * 4), 4) for x in G.comb(vs)) for _ in range(R.randint(3, 4))]
+            bd = [G.body_feature_point(A0)[0] for _ in range(R.randint(1, 2))]
+            fs = E.hull_faces(inner + bd)
+            if fs is not None:
+                break
+        else:
+            return make_case(G, i + 1)
+        B0 = ('B', fs)
+        if R.random() < 0.5:
+            A0, B0 = B0, A0
     elif tpl == 'shared-vertex':
         B0 = one(kinds[1])
         va = R.choice(E.vertices_of(A0))
